@@ -1024,20 +1024,20 @@ impl Melda {
         if self.has_staging() {
             bail!("stage_not_empty")
         }
+        // Read delta list
+        let data = self.data.read().expect("cannot_acquire_data_for_reading");
+        let list_str = data.list_raw_items(DELTA_EXTENSION)?;
+        drop(data);
+        // Reload data storage (it refuses to run when the data stage is not empty: nothing
+        // of the replica may be cleared before that)
+        let mut data = self.data.write().expect("cannot_acquire_data_for_writing");
+        data.reload()?;
+        drop(data);
         // Clear the documents
         self.documents
             .write()
             .expect("failed_to_acquire_documents_for_writing")
             .clear();
-        // Read delta list
-        let data = self.data.read().expect("cannot_acquire_data_for_reading");
-        let list_str = data.list_raw_items(DELTA_EXTENSION)?;
-        drop(data);
-        self.deltas.write().unwrap().clear();
-        // Reload data storage
-        let mut data = self.data.write().expect("cannot_acquire_data_for_writing");
-        data.reload()?;
-        drop(data);
         // Clear the deltas
         self.deltas.write().unwrap().clear();
         // Fetch and parse deltas
@@ -1225,6 +1225,15 @@ impl Melda {
         if self.has_staging() {
             bail!("stage_not_empty")
         }
+        // Read delta list
+        let data_r = self.data.write().expect("cannot_acquire_data_for_writing");
+        let list_str = data_r.list_raw_items(DELTA_EXTENSION)?;
+        drop(data_r);
+        // Reload data storage (it refuses to run when the data stage is not empty: nothing
+        // of the replica may be cleared before that)
+        let mut data_w = self.data.write().expect("cannot_acquire_data_for_writing");
+        data_w.reload()?;
+        drop(data_w);
         let mut documents_w = self
             .documents
             .write()
@@ -1232,14 +1241,6 @@ impl Melda {
         // Clear the documents
         documents_w.clear();
         drop(documents_w);
-        // Read delta list
-        let data_r = self.data.write().expect("cannot_acquire_data_for_writing");
-        let list_str = data_r.list_raw_items(DELTA_EXTENSION)?;
-        drop(data_r);
-        // Reload data storage
-        let mut data_w = self.data.write().expect("cannot_acquire_data_for_writing");
-        data_w.reload()?;
-        drop(data_w);
         // Clear the deltas
         let mut deltas_w = self
             .deltas
